@@ -72,7 +72,7 @@ func RunHistory(p *Prop, t *trace.T, history []string) {
 // recorded as "hang"; the code under test may then hold locks for ever, so nothing further is run
 // in this process (Hung).
 var (
-	OpTimeout = 60 * time.Second
+	OpTimeout = 300 * time.Second
 	Hung      bool
 )
 
@@ -80,6 +80,7 @@ func init() {
 	if v, err := time.ParseDuration(os.Getenv("VERIF_OP_TIMEOUT")); err == nil && v > 0 {
 		OpTimeout = v
 	}
+	stepLimit = OpTimeout / 2
 }
 
 // ExecTimed runs one op under OpTimeout.
